@@ -80,9 +80,17 @@ def _shell(cmd, fn, ln):
     return out
 
 
-def analyse(stage):
+FIT_FILES = ["esr/fitting/test_all.py", "esr/fitting/test_all_Fisher.py", "esr/fitting/match.py", "esr/fitting/combine_DL.py",
+             "esr/generation/simplifier.py"]
+FIT_STAGES = [("fit", "esr/fitting/test_all.py"), ("fisher", "esr/fitting/test_all_Fisher.py"), ("match", "esr/fitting/match.py"),
+              ("combine", "esr/fitting/combine_DL.py")]
+
+
+def analyse(stage, files=None, entry_file=None):
+    files = files or FILES
+    entry_file = entry_file or FILES[0]
     funcs = {}
-    for rel in FILES:
+    for rel in files:
         for n in extract._parse(stage, rel).body:
             if isinstance(n, ast.FunctionDef):
                 funcs[n.name] = n
@@ -177,8 +185,12 @@ def analyse(stage):
     if "main" not in funcs:
         raise ExtractError("duplicate_checker.main not found")
     # `main` of duplicate_checker (the dict holds the last `main` seen: make sure it is that one)
-    dc = extract._parse(stage, FILES[0])
+    dc = extract._parse(stage, entry_file)
     funcs["main"] = extract.find_def(dc, "main")
+    # same-named helpers of the entry module win over those of other modules
+    for n in dc.body:
+        if isinstance(n, ast.FunctionDef):
+            funcs[n.name] = n
     walk_fn("main", {}, 0, [])
     if not effs:
         raise ExtractError("no file effect found in the generation stage")
@@ -212,6 +224,11 @@ def gen(stage):
     t += "open ESR.Effects in\n/-- file effects of duplicate_checker.main and its callees, in execution order -/\ndef generation : List ESR.Effects.Eff := [\n"
     t += ",\n".join("  ⟨%s, %d, %s, .%s⟩" % (lstr(f), ln, lstr(k), a) for f, ln, k, a in effs)
     t += "\n  ]\n\n"
+    for name, rel in FIT_STAGES:
+        fe, _, _ = analyse(stage, FIT_FILES, rel)
+        t += "/-- file effects of the `%s` fitting stage (%s main and its callees), in execution order -/\ndef %sStage : List ESR.Effects.Eff := [\n" % (name, rel, name)
+        t += ",\n".join("  ⟨%s, %d, %s, .%s⟩" % (lstr(f), ln, lstr(k.replace("*", "#")), a) for f, ln, k, a in fe)
+        t += "\n  ]\n\n"
     t += "def unseededShuffles : List String := [%s]\n" % ", ".join(lstr(x) for x in unseeded)
     t += "def locsReadBeforeWrite : List String := [%s]\n" % ", ".join(lstr(x) for x in locs_bad)
     t = t.replace("namespace ESR.Gen.Effects\n", "namespace ESR.Gen.Effects\n", 1)
